@@ -218,6 +218,10 @@ SeenOf(ww, e) ==
   \cup (IF "default_dim" \in DOMAIN e THEN {"default-dim"} ELSE {})
   \cup (IF "default_dim" \in DOMAIN e /\ DimOf(ww, e) \notin {"index", "point"} THEN {"default-dim-collision"} ELSE {})
   \cup (IF e.a \in {"SelectPoints", "ExtractDF"} /\ "err" \in DOMAIN e.obs THEN {"points-error-raised"} ELSE {})
+  \cup (IF e.a \in {"SelectPoints", "ExtractDF"} /\ clean /\ Len(e.ps) > 1
+        THEN (LET miss == {k \in 1..Len(e.ps) : Least(Hits(<<e.ps[k][1], e.ps[k][2]>>)) < 0}
+              IN (IF miss = {1} THEN {"only-first-missing"} ELSE {}) \cup (IF miss = {Len(e.ps)} THEN {"only-last-missing"} ELSE {}))
+        ELSE {})
   \cup (IF e.a \in {"SelectIndex", "SelectIndexes"} THEN {"kind-" \o e.kind} ELSE {})
   \cup (IF e.a = "Export" THEN {"fmt-" \o e.fmt} ELSE {})
   \cup (IF e.a \in {"PolyCollection", "Quiver"} /\ e.refuse # "" THEN {"refuse-" \o e.refuse} ELSE {})
